@@ -171,6 +171,18 @@ fn serve(inner: Arc<Inner>, mut stream: TcpStream, conn: u64) {
         });
         let json = encoding == Encoding::Json;
 
+        if let Decision::WedgeConnection { keep_reading: false } = decision {
+            inner.update(idx, |r| {
+                r.outcome = Outcome::Dropped;
+                r.phase = Phase::Stalled;
+            });
+            // nothing more is read or written; the socket stays open until the collector shuts down
+            while !inner.is_shutdown() {
+                std::thread::sleep(Duration::from_millis(20));
+            }
+            return;
+        }
+
         if decision == Decision::CloseBeforeRead {
             inner.finish(idx, Outcome::Dropped);
             // unread request bytes in the receive queue make this a reset rather than a clean FIN
@@ -211,6 +223,25 @@ fn serve(inner: Arc<Inner>, mut stream: TcpStream, conn: u64) {
         let wire_len = body.len();
         let payload = if gzip { decode::gunzip(&body) } else { Ok(body) };
         inner.body(idx, wire_len, payload);
+
+        if let Decision::WedgeConnection { .. } = decision {
+            inner.update(idx, |r| {
+                r.outcome = Outcome::Dropped;
+                r.phase = Phase::Stalled;
+            });
+            // keep draining whatever arrives, answer nothing, never close (not even when the peer does)
+            let _ = stream.set_read_timeout(Some(Duration::from_millis(20)));
+            let mut sink = [0u8; 4096];
+            while !inner.is_shutdown() {
+                match stream.read(&mut sink) {
+                    Ok(0) => std::thread::sleep(Duration::from_millis(20)),
+                    Ok(_) => {}
+                    Err(e) if matches!(e.kind(), ErrorKind::WouldBlock | ErrorKind::TimedOut | ErrorKind::Interrupted) => {}
+                    Err(_) => std::thread::sleep(Duration::from_millis(20)),
+                }
+            }
+            return;
+        }
 
         // ---- act
         let mut close = wants_close;
@@ -277,7 +308,7 @@ fn serve(inner: Arc<Inner>, mut stream: TcpStream, conn: u64) {
                     Outcome::Dropped
                 }
             }
-            Decision::CloseBeforeRead => unreachable!(),
+            Decision::CloseBeforeRead | Decision::WedgeConnection { .. } => unreachable!(),
         };
         if outcome == Outcome::Dropped {
             close = true;
